@@ -1,4 +1,5 @@
 import SJ.Drv.C18
+import SJ.Drv.C08
 /-!
 `sjdriver` — reads case lines `op args… => impl-observation` on stdin, runs the Lean model and the
 executable specification on each, prints
@@ -9,7 +10,7 @@ and finally `SUMMARY total=… modeldiff=… specfail=… bad=…`.
 open SJ SJ.Drv
 
 def allHandlers : List (String × Handler) :=
-  C18.handlers
+  C18.handlers ++ C08.handlers
 
 def findHandler (op : String) : Option Handler := (allHandlers.find? (·.1 == op)).map (·.2)
 
